@@ -867,6 +867,10 @@ def job_construct(tier, part, of):
     calls = list(enumerate(kind_calls(tier)))
     short = list(enumerate(kind_calls(tier, max(len(pl) for pl in construct_plists(tier)))))
     paths = construction_paths()
+    pls = construct_plists(tier)
+    seconds = [(k2, decorator_path(k2)) for k2 in ('function', 'method', 'ext')]
+    if tier == 'thorough':
+        seconds = [(M.kind_after(*v[1:]), v) for v in paths if M.kind_after(*v[1:])]
     n = 0
     for vi, via in enumerate(paths):
         kind = M.kind_after(*via[1:])
@@ -884,10 +888,6 @@ def job_construct(tier, part, of):
             if ctx is not None:
                 run_on(res, ('construct', 'one', vi, pi), ctx, strip_paths(built), calls, text='always',
                        extra={'built': built}, key=path_class(via))
-        pls = construct_plists(tier)
-        seconds = [(k2, decorator_path(k2)) for k2 in ('function', 'method', 'ext')]
-        if tier == 'thorough':
-            seconds = [(M.kind_after(*v[1:]), v) for v in paths if M.kind_after(*v[1:])]
         for name in sorted(CONSTRUCT_ARRANGEMENTS):
             for (ia, pa), (ib, pb), (si, (k2, via2)) in itertools.product(enumerate(pls), enumerate(pls), enumerate(seconds)):
                 n += 1
@@ -1002,6 +1002,18 @@ def typed_expected(layers, args):
     return exp
 
 
+def culprit(layers, args):
+    """The failing site of a typed family: a declared type that, alone in foo(x: T), already treats one of the
+    arguments differently from the model (None: the disagreement needs the whole family)."""
+    for exclusive, overloads in layers:
+        for tag, types in overloads:
+            for t, a in zip(types, args):
+                single = ((False, (('t1', (t,)),)),)
+                exp = typed_expected(single, (a,))
+                if exp is not None and R.typed_call(R.build_typed(single, typed_base()), [a[0].format(k=0)])[0] != exp[0]:
+                    return 'type filter: a parameter declared %s' % type_name(t)
+
+
 def run_typed(res, fid, layers, arg_tuples, key):
     ctx = R.build_typed(layers, typed_base())
     for ai, args in arg_tuples:
@@ -1018,7 +1030,7 @@ def run_typed(res, fid, layers, arg_tuples, key):
         res.outcomes['%s %s' % (fid[0], outcome_class(exp[0]))] += 1
         if obs != exp:
             what = 'outcome' if obs[0] != exp[0] else 'evaluated-arguments'
-            res.fail('%s: %s' % (key, what),
+            res.fail('%s: %s' % (culprit(layers, args) or key, what),
                      {'typed': fid, 'layers': layers, 'args': args,
                       'text': 'foo(%s)' % ', '.join(a[0].format(k=i) for i, a in enumerate(args))},
                      'observed %r expected %r' % (obs, exp))
